@@ -331,7 +331,7 @@ pub fn c01_flow_differential(run: &Run) {
                 let h = &histories[i];
                 let s1 = crate::c01::fresh_scratch("c01-flow-store");
                 let s2 = crate::c01::fresh_scratch("c01-flow-driver");
-                let mut a = StoreRig::new(&s1, RigCfg { max_records: 16 * 1024, cache_size: 25 }, peer);
+                let mut a = StoreRig::new(&s1, RigCfg { max_records: 16 * 1024, cache_size: 25, max_value_bytes: None }, peer);
                 a.settle();
                 let mut b = DriverRig::new_node(1, &s2);
                 // reference: the latest operation per key
@@ -474,7 +474,7 @@ pub fn c01_differential(run: &Run) {
                 let h = &histories[i];
                 let s1 = crate::c01::fresh_scratch("c01-diff-store");
                 let s2 = crate::c01::fresh_scratch("c01-diff-driver");
-                let mut a = StoreRig::new(&s1, RigCfg { max_records: 16 * 1024, cache_size: 25 }, peer);
+                let mut a = StoreRig::new(&s1, RigCfg { max_records: 16 * 1024, cache_size: 25, max_value_bytes: None }, peer);
                 a.settle();
                 let mut b = DriverRig::new_node(1, &s2);
                 let mut pending_local: VecDeque<LocalSwarmCmd> = VecDeque::new();
